@@ -38,7 +38,7 @@ ASSUMPTIONS = [
 FLOORS = {
     'quick': {'layouts_checked': 10000, 'runs_rewritten': 4000, 'ref_compared': 9000, 'layer:directive': 1300, 'layer:parse': 1300,
               'layer:conflict': 400, 'layer:compile': 150, 'nameguard_decisions': 1200, 'ignorecase_token_matches': 150,
-              'ws:default': 800, 'ws:regex': 400, 'ws:empty': 200, 'comment_runs': 1300, 'added_leading': 6000, 'added_trailing': 6000},
+              'ws:default': 800, 'ws:regex': 400, 'ws:empty': 200, 'comment_runs': 1300, 'added_leading': 6000, 'added_trailing': 6000, 'reused_parser_checked': 3000},
     'thorough': {'layouts_checked': 250000, 'runs_rewritten': 90000, 'ref_compared': 200000},
 }
 N = {'quick': 3000, 'thorough': 72000}
@@ -191,7 +191,30 @@ def check_case(acc, rng, g, directives, parse, comp, eff, texts, origin):
         acc.count('layer:conflict')
     ws = eff.get('whitespace', DEFAULT_WS)
     acc.count('ws:default' if ws == DEFAULT_WS else 'ws:empty' if ws == '' else 'ws:regex')
+    gen_cls = None
+    reused = None
+    if not comp:
+        try:
+            from ..tsu import gen_parser
+            gen_cls = gen_parser(L.to_model(L.Grammar(list(g.rules), directive_text_values(directives), tuple(g.keywords)), name='T'))[0]
+        except Exception:  # noqa: BLE001 - code generation problems are C02's business
+            gen_cls = None
     for text in texts:
+        if gen_cls is not None and parse:
+            # parse-time settings must not outlive the call on a long-lived parser object
+            from ..tsu import outcome
+            if reused is None:
+                reused = gen_cls()
+            outcome(reused.parse, text, **parse)
+            r_plain = outcome(reused.parse, text)
+            f_plain = outcome(lambda t: gen_cls().parse(t), text)
+            acc.evaluations += 1
+            acc.count('reused_parser_checked')
+            if (r_plain[0], r_plain[1] if r_plain[0] != 'fail' else None) != (f_plain[0], f_plain[1] if f_plain[0] != 'fail' else None):
+                acc.violation('settings-leak/reused-parser-object',
+                              f'parse-time settings {parse} of an earlier call are still in force on the same generated parser object: '
+                              f'{describe(g, directives, {}, {})} input {text!r} FRESH={f_plain} AFTER-EARLIER-CALL={r_plain}',
+                              dict(w0, text=text, fresh=f_plain, reused=r_plain))
         a, r = ref_run(gd, text, start, settings=eff, max_steps=20000)
         if a[0] == 'budget':
             acc.count('ref_budget')
